@@ -29,7 +29,7 @@ ASSUMPTIONS = [
     "origin equality is decided on canonical origin specs (kind, source, range, path, member list)",
     "a == b => hash(a) == hash(b) is deliberately not asserted (not claimed; hash is of the unique id)",
 ]
-FLOORS = {"triples:one-origin-diff-depth>=2": 0.2, "triples:in-tuple-index>=1": 0.08, "triples:equal-pair": 0.2}
+FLOORS = {"triples:one-origin-diff-depth>=2": 0.08, "triples:in-tuple-index>=1": 0.08, "triples:equal-pair": 0.2}
 
 ORIGIN_VARIANTS = ["same", "one", "kind_code_gen", "kind_no_vs", "multi_vs_first", "range", "source", "member"]
 
